@@ -266,7 +266,7 @@ var c26FaultOps = []string{"Put", "Delete", "Delete", "PrefixAppend", "PrefixRem
 
 func TestC26(t *testing.T) {
 	rec := ev.New(t, "C26")
-	rec.Rule("rapid state machine: 2..3 clients with their own certificates (one token extends another, one is a v2 token), 6..18 steps of generate / registered-hostnames / publish / unpublish / release / custom-bind, one step in four under a storage fault (Put, Delete, PrefixAppend, PrefixRemove, Acquire, Get, PrefixContains, PrefixList, any mutation, any read or any operation failing - every matching call or only the n-th (n<=5), on any key or only on route / custom-binding / registration / lease / destination keys - with a plain, retryable-chord, node-gone or deadline error; lease Release is never failed), hostnames chosen among own, another client's, released, never-registered, empty and key-shaped strings; server lists over 4 known servers, 2 unknown ones, an empty node, with duplicates (exact and same-address-other-id) and 0..5 entries; the identity claimed in the stream header is generated independently of the certificate. Direct handler calls with a delegation context against a real kv/memory store. Oracle: reference model of registrations, route slots and custom bindings; after every step the complete KV content must equal the model. Under a storage fault: a request that reports success must have its complete effect (publish: the routes it lists as published), a request that fails leaves every key it would change in its old or its new state and nothing else touched. Non-trivial sequence: contains a cross-client attempt (publish/unpublish/release of a hostname registered to another client) and a publish with a duplicate server. Distinct = the symbolic step list.")
+	rec.Rule("rapid state machine: 2..3 clients with their own certificates (one token extends another, one is a v2 token), 6..18 steps of generate / registered-hostnames / publish / unpublish / release / custom-bind, one step in four under a storage fault (Put, Delete, PrefixAppend, PrefixRemove, Acquire, Get, PrefixContains, PrefixList, any mutation, any read or any operation failing - every matching call or only the n-th (n<=5), on any key or only on route / custom-binding / registration / lease / destination keys - with a plain, retryable-chord, node-gone or deadline error; lease Release is never failed), hostnames chosen among own, another client's, released, never-registered, empty and key-shaped strings; server lists over 4 known servers, 2 unknown ones, an empty node, with duplicates (exact and same-address-other-id) and 0..5 entries; the identity claimed in the stream header is generated independently of the certificate. Direct handler calls with a delegation context against a real kv/memory store. Oracle: reference model of registrations, route slots and custom bindings; after every step the complete KV content must equal the model. Under a storage fault: a request that reports success must have its complete effect (publish: the routes it lists as published), a request that fails leaves every key it would change in its old or its new state and nothing else touched. Router-hook dimension (class through-router-hook): generate/publish sequences of three certificates, two of which carry the same v1 token with different client ids, pass through the RequestRouted hook first, with the token record naming the caller, the other certificate or a pre-PKI identity; every stored route must name the identity of the certificate the request came with. Non-trivial sequence: contains a cross-client attempt (publish/unpublish/release of a hostname registered to another client) and a publish with a duplicate server. Distinct = the symbolic step list.")
 	rec.Assume("a failed lease Release is a lease-expiry matter (C19) and is not injected; PublishTunnel by design succeeds when at least one of its route Puts succeeded and lists the published ones",
 		"requested servers are distinct when their addresses differ (destination records are keyed by address); route slots above k are left as they were (the statement speaks of slots 1..k only)",
 		"custom bindings are created by the harness exactly as AcmeValidate stores them (SaveCustomHostname + PrefixAppend); AcmeValidate itself is C29")
@@ -384,6 +384,8 @@ func TestC26(t *testing.T) {
 			rec.Case(true, "scenario:publish-overlaps-release", func() any { return doc }, "scenario:publish-overlaps-release")
 		}
 	}
+
+	c26ThroughRouterHook(t, rec, fx, servers)
 
 	ev.RapidCheck(t, 2000, 100000, func(t *rapid.T) {
 		// fresh store per sequence
